@@ -64,12 +64,15 @@ type namespace struct {
 func newNS() *namespace { return &namespace{used: map[string]bool{}} }
 
 type tagGen struct {
-	r        *rand.Rand
-	tags     []string
-	fresh    int
-	dotted   bool
-	nstructs int
-	combos   map[string]bool
+	r            *rand.Rand
+	tags         []string
+	fresh        int
+	dotted       bool
+	nstructs     int
+	combos       map[string]bool
+	cfgs         []cfgSnap
+	inlineCfg    int // (field, tag set) pairs where an existing Config is inlined
+	inlineCfgTag map[int]int
 }
 
 var tagNames = []string{"config", "config", "json", "yaml", "cfg", "ucfg", "conf", "x"}
@@ -178,6 +181,27 @@ func (g *tagGen) build(n *model.Node, ns []*namespace, depth int) *dstruct {
 			f.node = c
 			b := newBuilder(g.r, false)
 			f.val = b.node(plain(c), []int{stMap, stMapI, stTyped}[g.r.Intn(3)], false)
+			if dictLike(c) && g.r.Intn(4) == 0 {
+				// the dictionary arrives as an existing Config (named or inlined)
+				if cfg, err := ucfg.NewFrom(f.val); err == nil {
+					if sn, ok := snapConfig(cfg); ok {
+						g.cfgs = append(g.cfgs, sn)
+					}
+					f.val = cfg
+					if g.r.Intn(3) == 0 {
+						f.val = *cfg
+					}
+					for x := range g.tags {
+						if f.mode[x] == mInline {
+							g.inlineCfg++
+							if g.inlineCfgTag == nil {
+								g.inlineCfgTag = map[int]int{}
+							}
+							g.inlineCfgTag[x]++
+						}
+					}
+				}
+			}
 		}
 		d.fields = append(d.fields, f)
 	}
@@ -441,6 +465,10 @@ func (k *kase) tagViews() string {
 		if gc == want {
 			continue
 		}
+		if g.inlineCfgTag[x] > 0 && onlyMissing(wrap(exp), got) {
+			k.res.Violate("inline-config-field:settings-missing", "the struct has fields tagged inline under %q that hold an existing Config, and settings are missing: unpack gives %s, the tags %q describe %s; %s", g.tags[x], gc, g.tags[x], want, what)
+			continue
+		}
 		sig := "struct-tag-view:disagrees"
 		note := ""
 		for y := range g.tags {
@@ -462,5 +490,9 @@ func (k *kase) tagViews() string {
 		}
 		k.res.Violate(sig+later, "unpack gives %s%s, the tags %q describe %s; %s", gc, note, g.tags[x], want, what)
 	}
+	if g.inlineCfg > 0 {
+		k.res.Ev("structtag_inline_config_fields", int64(g.inlineCfg))
+	}
+	k.checkSnaps(g.cfgs, "after the sequence ["+strings.Join(history, " ; ")+"] on "+desc)
 	return desc
 }
